@@ -659,7 +659,7 @@ pub fn execute_normal(cpu: &mut Z80, bus: &mut impl Z80Bus, opcode: Opcode, pref
                     // write Acc to port A*256 + operand
                     bus.write_io(((acc as u16) << 8) | data as u16, acc);
                     cpu.regs
-                        .set_mem_ptr((data as u16).wrapping_add(1) | (acc as u16) << 8);
+                        .set_mem_ptr((data.wrapping_add(1) as u16) | ((acc as u16) << 8));
                 }
                 // IN A, (n)
                 // [0b11011011] : DB
